@@ -83,14 +83,257 @@ theorem commonpath_isPrefix (p : Str) (ps : List Str) (hnorm : ∀ k ∈ p :: ps
   · rw [if_neg hall]
     exact List.nil_prefix
 
-theorem common_isPrefix_aux (keys : List Str) (h2 : 2 ≤ keys.length) (hnorm : ∀ k ∈ keys, NormalizedAux k) (k : Str) (hk : k ∈ keys) :
-    (common keys).isPrefixOf k = true := by
+/-! ### `splitSep` / `joinSep` / `dirname` -/
+
+theorem splitSep_ne_nil : ∀ p : Str, splitSep p ≠ []
+  | [] => by simp [splitSep]
+  | c :: cs => by
+    rw [splitSep]
+    cases h : splitSep cs with
+    | nil => simp
+    | cons a t => by_cases hc : (c == sep) = true <;> simp [hc]
+
+theorem joinSep_cons_of_ne_nil (a : Str) (l : List Str) (hl : l ≠ []) : joinSep (a :: l) = a ++ sep :: joinSep l := by
+  cases l with
+  | nil => exact absurd rfl hl
+  | cons b r => exact joinSep_cons_cons a b r
+
+theorem joinSep_splitSep : ∀ p : Str, joinSep (splitSep p) = p
+  | [] => by simp [splitSep, joinSep]
+  | c :: cs => by
+    have ih := joinSep_splitSep cs
+    rw [splitSep]
+    cases h : splitSep cs with
+    | nil => exact absurd h (splitSep_ne_nil cs)
+    | cons a t =>
+      rw [h] at ih
+      by_cases hc : (c == sep) = true
+      · have hcs : c = sep := by simpa using hc
+        simp only [hc, if_true]
+        rw [joinSep_cons_cons, ih, hcs]; rfl
+      · have hc' : (c == sep) = false := by simpa using hc
+        simp only [hc', Bool.false_eq_true, if_false]
+        cases t with
+        | nil => simp only [joinSep] at ih ⊢; rw [ih]
+        | cons b r =>
+          rw [joinSep_cons_cons] at ih ⊢
+          simp [← ih]
+
+theorem joinSep_append (a b : List Str) (ha : a ≠ []) (hb : b ≠ []) :
+    joinSep (a ++ b) = joinSep a ++ sep :: joinSep b := by
+  induction a with
+  | nil => exact absurd rfl ha
+  | cons x a ih =>
+    cases a with
+    | nil =>
+      simp only [List.singleton_append]
+      rw [joinSep_cons_of_ne_nil x b hb]; simp [joinSep]
+    | cons y a =>
+      have := ih (by simp)
+      rw [List.cons_append, joinSep_cons_of_ne_nil x _ (by simp), this, joinSep_cons_cons]
+      simp
+
+theorem mem_takeWhile_pos (q : Char → Bool) : ∀ (l : Str) (x : Char), x ∈ l.takeWhile q → q x = true
+  | [], _, h => by simp at h
+  | a :: l, x, h => by
+    rw [List.takeWhile_cons] at h
+    by_cases ha : q a = true
+    · rw [if_pos ha] at h
+      rcases List.mem_cons.1 h with rfl | h
+      · exact ha
+      · exact mem_takeWhile_pos q l x h
+    · rw [if_neg ha] at h; simp at h
+
+theorem dropTrailingSeps_prefix (p : Str) : dropTrailingSeps p <+: p := by
+  unfold dropTrailingSeps
+  rw [← List.reverse_suffix, List.reverse_reverse]
+  exact List.dropWhile_suffix _
+
+/-- `head = dropTrailingSeps head ++ (separators)`. -/
+theorem dropTrailingSeps_append (p : Str) : ∃ t : Str, p = dropTrailingSeps p ++ t ∧ ∀ c ∈ t, c = sep := by
+  refine ⟨(p.reverse.takeWhile (· == sep)).reverse, ?_, ?_⟩
+  · unfold dropTrailingSeps
+    rw [← List.reverse_append, List.takeWhile_append_dropWhile, List.reverse_reverse]
+  · intro c hc
+    have := mem_takeWhile_pos _ _ _ (List.mem_reverse.1 hc)
+    simpa using this
+
+/-- `p = head ++ basename` where `head = p[:i+1]`. -/
+theorem splitSep_head_append (p : Str) (h : ¬ (splitSep p).length ≤ 1) :
+    p = (joinSep (splitSep p).dropLast ++ [sep]) ++ ((splitSep p).getLast (splitSep_ne_nil p)) := by
+  have hne := splitSep_ne_nil p
+  have hd : (splitSep p).dropLast ≠ [] := by
+    intro h0
+    have := congrArg List.length h0
+    simp at this; omega
+  conv_lhs => rw [← joinSep_splitSep p, ← List.dropLast_append_getLast hne]
+  rw [joinSep_append _ _ hd (by simp)]
+  simp [joinSep]
+
+theorem dirname_prefix (p : Str) : dirname p <+: p := by
+  unfold dirname
+  simp only
+  split_ifs with h1 h2
+  · exact List.nil_prefix
+  · exact ⟨_, (splitSep_head_append p h1).symm⟩
+  · exact (dropTrailingSeps_prefix _).trans ⟨_, (splitSep_head_append p h1).symm⟩
+
+/-- A directory part that is not made of separators only is followed by a separator. -/
+theorem dirname_sep (p : Str) (hd : ¬ (dirname p).all (· == sep) = true) : ∃ rest, p = dirname p ++ sep :: rest := by
+  unfold dirname at hd ⊢
+  simp only at hd ⊢
+  split_ifs at hd ⊢ with h1 h2
+  · simp at hd
+  · exact absurd h2 hd
+  · obtain ⟨t, ht, hsep⟩ := dropTrailingSeps_append (joinSep (splitSep p).dropLast ++ [sep])
+    cases t with
+    | nil =>
+      exfalso
+      -- the head ends with a separator, its stripped form does not
+      rw [List.append_nil] at ht
+      have hlast : (dropTrailingSeps (joinSep (splitSep p).dropLast ++ [sep])).reverse.head? = some sep := by
+        rw [← ht]; simp
+      unfold dropTrailingSeps at hlast
+      rw [List.reverse_reverse] at hlast
+      have := List.head?_dropWhile_not (· == sep) (joinSep (splitSep p).dropLast ++ [sep]).reverse
+      rw [hlast] at this
+      simp at this
+    | cons c t =>
+      have hc : c = sep := hsep c (by simp)
+      subst hc
+      refine ⟨t ++ (splitSep p).getLast (splitSep_ne_nil p), ?_⟩
+      conv_lhs => rw [splitSep_head_append p h1, ht]
+      simp
+
+theorem comps_sep_cons (cs : Str) : comps (sep :: cs) = comps cs := by
+  unfold comps
+  rw [splitSep]
+  cases h : splitSep cs with
+  | nil => exact absurd h (splitSep_ne_nil cs)
+  | cons a t => simp
+
+theorem comps_all_sep : ∀ s : Str, s.all (· == sep) = true → comps s = []
+  | [], _ => by simp [comps, splitSep]
+  | c :: cs, h => by
+    simp only [List.all_cons, Bool.and_eq_true] at h
+    have hc : c = sep := by simpa using h.1
+    rw [hc, comps_sep_cons]
+    exact comps_all_sep cs h.2
+
+/-- A normalised path made of separators only is empty or the root. -/
+theorem normalized_all_sep (d : Str) (hn : NormalizedAux d) (h : d.all (· == sep) = true) : d = [] ∨ d = [sep] := by
+  unfold NormalizedAux at hn
+  rw [comps_all_sep d h] at hn
+  by_cases ha : isAbs d = true
+  · right; rw [← hn]; simp [ha, joinSep]
+  · left; rw [← hn]; simp [ha, joinSep]
+
+/-- `commonpath` is a *component* prefix of every normalised member. -/
+theorem commonpath_compPrefix (p : Str) (ps : List Str) (k : Str) (hk : k ∈ p :: ps) :
+    (commonpath (p :: ps)).getD [] = [] ∨
+      ∃ c, c <+: comps k ∧ (commonpath (p :: ps)).getD [] = (if isAbs k then [sep] else []) ++ joinSep c := by
+  rw [commonpath]
+  by_cases hall : (ps.all fun q => isAbs q == isAbs p) = true
+  · right
+    rw [if_pos hall]
+    simp only [Option.getD_some]
+    obtain ⟨h1, h2⟩ := foldl_commonPrefix_prefix ps (comps p)
+    rcases List.mem_cons.1 hk with rfl | hk'
+    · exact ⟨_, h1, rfl⟩
+    · refine ⟨_, h2 k hk', ?_⟩
+      have := List.all_eq_true.1 hall k hk'
+      have : isAbs k = isAbs p := by simpa using this
+      rw [this]
+  · left
+    rw [if_neg hall]; rfl
+
+/-- `_path_dirname(k)` is a string prefix of `k` (the directory part in front of the name; the bracket part never belongs to it). -/
+theorem pathDirname_isPrefix (k : Str) : (pathDirname k).isPrefixOf k = true := by
+  rw [List.isPrefixOf_iff_prefix]
+  unfold pathDirname splitBracket
+  exact (dirname_prefix _).trans (List.takeWhile_prefix _)
+
+theorem common_eq_of_two (keys : List Str) (h2 : 2 ≤ keys.length) :
+    common keys = (commonpath (keys.map pathDirname)).getD [] := by
+  match keys, h2 with
+  | a :: b :: r, _ => rfl
+
+/-- Since the F33 repair the common path is the common path of the *directory parts* of the keys. It is a string prefix of
+every key whose directory part is normalised. -/
+theorem common_isPrefix_aux (keys : List Str) (h2 : 2 ≤ keys.length) (hnorm : ∀ k ∈ keys, NormalizedAux (pathDirname k)) (k : Str)
+    (hk : k ∈ keys) : (common keys).isPrefixOf k = true := by
+  rw [common_eq_of_two keys h2]
   match keys, h2, hnorm, hk with
-  | [], h2, _, _ => simp at h2
-  | [_], h2, _, _ => simp at h2
-  | a :: b :: r, _, hnorm, hk =>
-    have : common (a :: b :: r) = (commonpath (a :: b :: r)).getD [] := rfl
-    rw [this]
-    exact commonpath_isPrefix a (b :: r) hnorm k hk
+  | a :: r, _, hnorm, hk =>
+    have hmem : pathDirname k ∈ pathDirname a :: r.map pathDirname := by
+      rw [← List.map_cons]; exact List.mem_map_of_mem hk
+    have h := commonpath_isPrefix (pathDirname a) (r.map pathDirname)
+      (by
+        intro d hd
+        rw [← List.map_cons] at hd
+        obtain ⟨x, hx, rfl⟩ := List.mem_map.1 hd
+        exact hnorm x hx) (pathDirname k) hmem
+    rw [List.map_cons]
+    rw [List.isPrefixOf_iff_prefix] at h ⊢
+    exact h.trans (List.isPrefixOf_iff_prefix.1 (pathDirname_isPrefix k))
+
+/-- … and it is a *directory* prefix: every key continues with a separator after it (or the common path is empty, or it is
+the root). Before the repair `A [kN/m]` and `A [kN/s]` had the common path `A [kN`, which this statement excludes. -/
+theorem common_dirPrefix_aux (keys : List Str) (h2 : 2 ≤ keys.length) (hnorm : ∀ k ∈ keys, NormalizedAux (pathDirname k))
+    (k : Str) (hk : k ∈ keys) (hc : common keys ≠ []) (hroot : common keys ≠ [sep]) :
+    ∃ rel, k = common keys ++ sep :: rel := by
+  rw [common_eq_of_two keys h2] at hc hroot ⊢
+  match keys, h2, hnorm, hk, hc, hroot with
+  | a :: r, _, hnorm, hk, hc, hroot =>
+    rw [List.map_cons] at hc hroot ⊢
+    have hmem : pathDirname k ∈ pathDirname a :: r.map pathDirname := by
+      rw [← List.map_cons]; exact List.mem_map_of_mem hk
+    have hdn := hnorm k hk
+    rcases commonpath_compPrefix (pathDirname a) (r.map pathDirname) (pathDirname k) hmem with h0 | ⟨c, hcp, hcm⟩
+    · exact absurd h0 hc
+    · -- the directory part of `k` is `common` or `common/…`
+      have hcne : c ≠ [] := by
+        rintro rfl
+        rw [hcm] at hc hroot
+        by_cases ha : isAbs (pathDirname k) = true <;> simp [ha, joinSep] at hc hroot
+      have hdir : ∃ t, pathDirname k = (commonpath (pathDirname a :: r.map pathDirname)).getD [] ++ t ∧
+          (t = [] ∨ ∃ t', t = sep :: t') := by
+        obtain ⟨t, ht⟩ := hcp
+        unfold NormalizedAux at hdn
+        rw [hcm]
+        cases t with
+        | nil =>
+          rw [List.append_nil] at ht
+          exact ⟨[], by rw [ht, List.append_nil]; exact hdn.symm, Or.inl rfl⟩
+        | cons x t =>
+          refine ⟨sep :: joinSep (x :: t), ?_, Or.inr ⟨_, rfl⟩⟩
+          conv_lhs => rw [← hdn, ← ht, joinSep_append c (x :: t) hcne (by simp)]
+          simp
+      obtain ⟨t, ht, htc⟩ := hdir
+      -- the directory part is not made of separators only
+      have hns : ¬ (pathDirname k).all (· == sep) = true := by
+        intro hall
+        rcases normalized_all_sep _ hdn hall with h | h
+        · rw [h] at ht
+          exact hc (List.append_eq_nil_iff.1 ht.symm).1
+        · rw [h] at ht
+          rcases htc with rfl | ⟨t', rfl⟩
+          · rw [List.append_nil] at ht; exact hroot ht.symm
+          · cases hcm' : (commonpath (pathDirname a :: r.map pathDirname)).getD [] with
+            | nil => exact hc hcm'
+            | cons y ys => rw [hcm'] at ht; simp at ht
+      obtain ⟨rest, hrest⟩ := dirname_sep ((splitBracket k).1) hns
+      have hk' : k = pathDirname k ++ sep :: (rest ++ (splitBracket k).2) := by
+        have : k = (splitBracket k).1 ++ (splitBracket k).2 := by
+          unfold splitBracket; simp
+        conv_lhs => rw [this, hrest]
+        unfold pathDirname
+        simp
+      rcases htc with rfl | ⟨t', rfl⟩
+      · rw [List.append_nil] at ht
+        exact ⟨_, by rw [← ht]; exact hk'⟩
+      · refine ⟨t' ++ sep :: (rest ++ (splitBracket k).2), ?_⟩
+        conv_lhs => rw [hk', ht]
+        simp
 
 end Qats.Names
